@@ -563,6 +563,69 @@ func runC19(ctx *core.Ctx) {
 		}
 		return ""
 	}})
+	// ---- B8/B9/B2b: how names, lines and tags are taken apart (round 4)
+	ctx.Rule("B8", "the part of a file name before its first underscore is never a constraint: what MatchFile splits at underscores is the name cut at the first underscore (a re-slice from strings.Index(name, \"_\"), or the part after a Cut), not the whole name - linux_test.go is an ordinary test file", 1)
+	ctx.Rule("B9", "the +build line is tokenised at any white space: the directive word and the options come from strings.Fields, so a tab separates as well as a blank", 1)
+	ctx.Rule("B2b", "tag characters are judged rune by rune: the value handed to unicode.IsLetter/IsDigit comes from ranging over the tag string (decoded runes), not from single bytes", 1)
+	if mf := p.Func("imports", "MatchFile"); mf != nil {
+		g := graph(p, mf)
+		n := 0
+		for _, c := range g.Calls("strings.Split", "strings.SplitN") {
+			if !isConstStr("_")(c.Call.Args[1]) {
+				continue
+			}
+			n++
+			arg := c.Call.Args[0]
+			cut := false
+			if sl, ok := arg.(*ssa.Slice); ok && sl.Low != nil {
+				if _, sep, ok := firstIndexOf(sl.Low); ok && sep == "_" {
+					cut = true
+				}
+				if b, ok := sl.Low.(*ssa.BinOp); ok && b.Op == token.ADD {
+					if _, sep, ok := firstIndexOf(b.X); ok && sep == "_" {
+						cut = true
+					}
+				}
+			}
+			if _, sep, ok := afterFirst(arg); ok && sep == "_" {
+				cut = true
+			}
+			ctx.Check(cut, "B8", "imports.MatchFile#after-first-underscore"+itoa(n), c.Pos(), "the name is split at underscores only after everything before its first underscore was cut off")
+		}
+		if n == 0 {
+			ctx.Note("B8", "imports.MatchFile#after-first-underscore", mf.Pos(), "MatchFile does not split the name at underscores with strings.Split; clause not decided")
+		}
+	}
+	if sb := p.Func("imports", "ShouldBuild"); sb != nil {
+		g := graph(p, sb)
+		n := 0
+		g.Instrs(func(i ssa.Instruction) {
+			b, ok := i.(*ssa.BinOp)
+			if !ok || b.Op != token.EQL || !isConstStr("+build")(b.Y) {
+				return
+			}
+			n++
+			fields := ssax.DerivedFrom(b.X, isCallOf([]string{"strings.Fields", "bytes.Fields"}), nil)
+			ctx.Check(fields, "B9", "imports.ShouldBuild#tokens"+itoa(n), b.Pos(), "the word compared with \"+build\" is a field of strings.Fields")
+		})
+		if n == 0 {
+			ctx.Note("B9", "imports.ShouldBuild#tokens", sb.Pos(), "no comparison with \"+build\" found; clause not decided")
+		}
+	}
+	if interp != nil {
+		g := graph(p, interp)
+		n := 0
+		for _, c := range g.Calls("unicode.IsLetter", "unicode.IsDigit") {
+			n++
+			ranged := false
+			if e, ok := c.Call.Args[0].(*ssa.Extract); ok {
+				if nx, ok := e.Tuple.(*ssa.Next); ok && nx.IsString {
+					ranged = true
+				}
+			}
+			ctx.Check(ranged, "B2b", shortFn(interp)+"#rune"+itoa(n), c.Pos(), "the character classified is a rune produced by ranging over the tag")
+		}
+	}
 	// ---- B5: the known-OS and known-architecture tables
 	{
 		refOS := strings.Fields("aix android darwin dragonfly freebsd hurd illumos ios js linux nacl netbsd openbsd plan9 solaris windows zos")
